@@ -404,3 +404,74 @@ SCENARIOS.append(_Scenario("C17.opset.dynamic_lookup", s_opset_dynamic_lookup,
                            [("onnxscript/_internal/values.py", "Opset.__getitem__"), ("onnxscript/_internal/values.py", "Opset.__contains__"),
                             ("onnxscript/_internal/values.py", "Opset.__getattr__")],
                            trusted=["onnx.defs.get_schema(op_type, max_inclusive_version, domain) (onnx)"]))
+
+
+def s_prepare_inputs_anylen(ctx):
+    """Opset._prepare_inputs for ANY number of inputs: the result is the argument list minus its maximal all-None suffix — the kept
+    prefix is unchanged (same objects, same order), everything dropped is None, and the last kept input is not None.
+    Inductive invariant of the while loop, stated for one arbitrary (Skolem) position j0."""
+    import z3
+    from onnxscript._internal import values
+    from pyvc.interp import LoopSpec, StarArgs
+    from pyvc.values import SSeq
+    I = Interp(ctx)
+    n = ctx.int("n")
+    ctx.assume(n >= 0)
+    j0 = ctx.int("j0")
+    ctx.assume(z3.And(j0 >= 0, j0 < n))
+    ctx.witness.update(n=n, j0=j0)
+    isnone = z3.Function("input_is_none", z3.IntSort(), z3.BoolSort())
+    is_literal = z3.Function("input_is_a_python_number", z3.IntSort(), z3.BoolSort())
+    litval = z3.Function("literal_value", z3.IntSort(), z3.IntSort())
+    from pyvc.values import SInt
+    cache = {}
+
+    def arg(i):
+        i = z3.simplify(i)
+        if ctx.branch(isnone(i)):
+            return None
+        if i.get_id() not in cache:
+            if ctx.branch(is_literal(i)):
+                # a Python number given as an input (possibly 0 / False-like: falsy but NOT an omitted input)
+                o = SInt(litval(i))
+            else:
+                o = SObj(object, "input")
+            o.idx = i
+            cache[i.get_id()] = o
+        return cache[i.get_id()]
+    inputs = SSeq(n, arg, name="inputs")
+
+    def mk(interp):
+        L = ctx.int("len_input_list")
+        ctx.assume(L >= 0)
+        s = SSeq(L, arg, name="input_list")   # same element function: position i holds argument i
+        s.mutable = True
+        return s
+
+    def inv(interp, env, k, pre, it):
+        lst = env.lookup("input_list")
+        return [("list_is_a_prefix_of_the_arguments", z3.And(lst.len >= 0, lst.len <= n)),
+                ("everything_dropped_so_far_is_None", z3.Implies(j0 >= lst.len, isnone(j0)))]
+    I.loops[("Opset._prepare_inputs", 0)] = LoopSpec({"input_list": mk}, inv)
+    clo = I.closure_of(values.Opset._prepare_inputs)
+    try:
+        r = I.run_closure(clo, [SObj(values.Opset, "opset"), Opaque("schema"), StarArgs(inputs)], {})
+    except PyRaise:
+        ctx.check("C17.prepare_inputs.any_length.never_raises", False, "C17")
+        return
+    ok = isinstance(r, SSeq)
+    ctx.check("C17.prepare_inputs.any_length.returns_a_list", ok, "C17")
+    if not ok:
+        return
+    cl = "C17: 'trims only trailing omitted optional inputs' (any number of inputs)"
+    L = r.len
+    ctx.check("C17.prepare_inputs.any_length.result_is_a_prefix", z3.And(L >= 0, L <= n), cl)
+    ctx.check("C17.prepare_inputs.any_length.dropped_inputs_are_all_None", z3.Implies(j0 >= L, isnone(j0)), cl)
+    ctx.check("C17.prepare_inputs.any_length.last_kept_input_is_not_None", z3.Implies(L > 0, z3.Not(isnone(L - 1))), cl)
+    if ctx.branch(j0 < L):
+        e = r.at(j0)
+        ctx.check("C17.prepare_inputs.any_length.kept_inputs_are_unchanged_and_in_order", isnone(j0) if e is None else (e.idx == j0), cl)
+
+
+SCENARIOS.append(Scenario("C17.prepare_inputs[any length]", s_prepare_inputs_anylen, [("onnxscript/_internal/values.py", "Opset._prepare_inputs")],
+                          assumptions=["loop invariant stated for one arbitrary (Skolem) position; termination not proved"]))
